@@ -207,6 +207,7 @@ def eval_monad_groupby(a, backend):
         return arr
     vals, inverse = bknp.unique(arr, return_inverse=True)
     groups = [bknp.where(inverse == i)[0] for i in range(len(vals))]
+    groups.sort(key=lambda g: int(g[0]))  # unique() sorts by value; groups appear in order of first occurrence
     return backend.kg_asarray(groups)
 
 
